@@ -76,7 +76,10 @@ CheckRun(r, k) ==
                    (IF passed \/ D.catches \/ (r.result[1] = "raise" /\ Len(r.result) >= 6 /\ r.result[3] = "NameError:PteraNameError"
                                                /\ r.result[4] = D.var /\ r.result[5] = "body" /\ r.result[6] = D.ann)
                     THEN <<>> ELSE << F(k, "FailsThere", "wrong-error", r.result[Len(r.result)]) >>)
-              ELSE <<>>)
+              \* nobody looks at the declared variable: the declaration is a plain declaration, the run is the untouched function's
+              ELSE IF r.mode \notin {"probe", "catplain"} \/ ("var2" \in DOMAIN D /\ instrV(D.var2)) THEN <<>>
+              ELSE IF r.log = Hide(T.ref.log) /\ r.result = T.ref.result THEN <<>>
+              ELSE << F(k, "Transparency", T.ref.result[1] \o ":" \o T.ref.result[Len(T.ref.result)], r.result[1] \o ":" \o r.result[Len(r.result)]) >>)
 Init == tid \in 1..Len(Traces) /\ ri = 0 /\ fails = <<>> /\ TLCSet(tid, <<0, <<>>>>)
 Step == /\ ri < Len(T.runs) /\ ri' = ri + 1 /\ UNCHANGED tid
         /\ fails' = fails \o CheckRun(T.runs[ri + 1], ri + 1)
